@@ -310,7 +310,10 @@ class SE2(SO2):
                 raise ValueError('bad argument to constructor')
 
         elif x is not None:
-            
+
+            if isinstance(x, np.ndarray) and x.ndim > 0:
+                raise ValueError('bad arguments to constructor, x must be a scalar')
+
             if y is not None and theta is None:
                 # SE2(x, y)
                 self.data = [tr.transl2(x, y)]
